@@ -72,6 +72,7 @@ type reqSpec struct {
 	rawPath string // as sent, percent-encoding included
 	query   string
 	xfp     string
+	upgrade string // Upgrade header ("" = none)
 }
 
 // wantLocation is written from the property statement and the documentation.
@@ -191,6 +192,10 @@ func genReq(t *rapid.T, x tmpl) reqSpec {
 	if rapid.IntRange(0, 2).Draw(t, "hasq") == 0 {
 		r.query = rapid.SampledFrom([]string{"a=1", "a=1&b=%20x", "q", "x=%2F"}).Draw(t, "query")
 	}
+	// any request that matches a redirect route is redirected, a websocket handshake included
+	if rapid.IntRange(0, 5).Draw(t, "upgrade") == 0 {
+		r.upgrade = rapid.SampledFrom([]string{"websocket", "Websocket", "h2c"}).Draw(t, "upgradeval")
+	}
 	return r
 }
 
@@ -202,6 +207,9 @@ func parseRequest(r reqSpec) *http.Request {
 	raw := "GET " + target + " HTTP/1.1\r\nHost: " + r.host + "\r\n"
 	if r.xfp != "" {
 		raw += "X-Forwarded-Proto: " + r.xfp + "\r\n"
+	}
+	if r.upgrade != "" {
+		raw += "Upgrade: " + r.upgrade + "\r\nConnection: Upgrade\r\nSec-WebSocket-Key: dGhlIHNhbXBsZSBub25jZQ==\r\nSec-WebSocket-Version: 13\r\n"
 	}
 	raw += "\r\n"
 	req, err := http.ReadRequest(bufio.NewReader(strings.NewReader(raw)))
